@@ -8,6 +8,8 @@ import Drv.HT
 import Drv.Heap
 import Drv.DC
 import Drv.RL2
+import Drv.NpD
+import Drv.KD
 open Lean Drv
 
 def dispatch (op : String) (j : Json) : Json :=
@@ -24,6 +26,8 @@ def dispatch (op : String) (j : Json) : Json :=
   | "C08.struct" => C08.struct j
   | "C09.cols" => C09.cols j
   | "HT.run" => HTd.run j
+  | "K.eval" => KD.eval j
+  | "Np.eval" => NpD.eval j
   | "RL2.run" => RL2d.run j
   | "DC.run" => DCd.run j
   | "Heap.run" => HeapD.run j
